@@ -283,7 +283,7 @@ func fmtRisk(ctl string, args []string) string {
 				consumed[depth-1] = true
 			}
 		default:
-			if 0 < depth && strings.IndexByte("ASDBOXRCPFEGW$?<", d.ch) >= 0 {
+			if 0 < depth && strings.IndexByte("ASDBOXRCPFEGW$?", d.ch) >= 0 {
 				consumed[depth-1] = true
 			}
 		}
@@ -433,7 +433,7 @@ func fmtFaultSig(c *Case, oc outcome) string {
 		}
 	}
 	try := func(ct string, ar []string) (string, bool) {
-		if skippedFmt(ct, ar) != "" {
+		if skippedFmt(ct, ar) != "" || !shrinkSafe(ct) {
 			return "", false
 		}
 		_, e, h := fmtCall(newScope(), ct, ar)
@@ -516,6 +516,49 @@ func fmtFaultSig(c *Case, oc outcome) string {
 		culprit = fmtDirs(ctl)
 	}
 	return sigName(fmt.Sprintf("fault=%s fmt dir=%s", k, culprit))
+}
+
+// shrinkSafe is the stricter rule for control strings the shrinker makes up:
+// every iteration body must hold an argument-taking directive that is not
+// inside a conditional or justification (whose clauses may not run), so that
+// each round of the iteration is certain to consume an argument.
+func shrinkSafe(ctl string) bool {
+	type frame struct {
+		consumed bool
+		inner    int // depth of [ ] and < > inside this iteration body
+	}
+	var st []frame
+	for _, d := range parseDirs(ctl) {
+		switch d.ch {
+		case '{':
+			st = append(st, frame{})
+		case '}':
+			if 0 < len(st) {
+				if !st[len(st)-1].consumed {
+					return false
+				}
+				st = st[:len(st)-1]
+			}
+		case '[', '<':
+			if 0 < len(st) {
+				st[len(st)-1].inner++
+			}
+		case ']', '>':
+			if 0 < len(st) && 0 < st[len(st)-1].inner {
+				st[len(st)-1].inner--
+			}
+		default:
+			if 0 < len(st) && st[len(st)-1].inner == 0 && strings.IndexByte("ASDBOXRCPFEGW$", d.ch) >= 0 {
+				st[len(st)-1].consumed = true
+			}
+		}
+	}
+	for _, f := range st { // unclosed iteration
+		if !f.consumed {
+			return false
+		}
+	}
+	return true
 }
 
 var idxLen = regexp.MustCompile(`index out of range \[(-?\d+)\](?: with length (\d+))?`)
